@@ -28,6 +28,12 @@
 (*  - the degree form IsSimpleCycleDeg: every meeting point carries        *)
 (*    exactly two edge ends of the right kind and the edges are connected. *)
 (* The model checker shows they agree on everything it sees.               *)
+(*                                                                         *)
+(* The last definitional section models the node's entry point             *)
+(* pow::verify_size(header): selection of the graph definition by chain    *)
+(* type / header version / edge bits, and acceptance with the REQUIRED      *)
+(* length a constant of the chain type while the header's nonce count is   *)
+(* an input of the sender (machine and plans: spec/mc/MC_CuckooSize.tla).  *)
 (***************************************************************************)
 EXTENDS Integers, Sequences, FiniteSets
 
@@ -148,6 +154,47 @@ SelectVariant(chain, version, eb) ==
                 [] version = 4 -> "cuckarooz"
                 [] OTHER -> "none"
     ELSE "cuckatoo"
+
+-----------------------------------------------------------------------------
+(* The node's entry point pow::verify_size(header).  The header carries the *)
+(* chain height (hence the header version), the edge bits and the nonce     *)
+(* list; ALL of them are chosen by whoever built the header, the nonce      *)
+(* COUNT included.  The required cycle length is a consensus constant of    *)
+(* the chain type and of nothing else.                                      *)
+
+Chains == {"mainnet", "testnet", "automated", "usertesting"}
+ProofSize(chain) == IF chain = "automated" THEN 8 ELSE 42
+
+\* a genuine cycle of whatever length: in the one-node-set graphs a self-loop is a 1-cycle
+IsLoop(G, n) == ~Bipartite(G.variant) /\ U(G, n) = V(G, n)
+IsCycleAnyLen(G, S) == /\ S # {}
+                       /\ IF Cardinality(S) = 1 THEN IsLoop(G, MinOf(S)) ELSE IsSimpleCycle(G, S)
+
+\* "seq is an ascending in-range list of k nonces that form one cycle": for k >= 2 this is Accept
+\* with K = k.  (What a verifier that believed a length k handed to it would accept.)
+AcceptLen(G, seq, k) == /\ Len(seq) = k
+                        /\ InRange(G, seq)
+                        /\ Ascending(seq)
+                        /\ IsCycleAnyLen(G, RangeOf(seq))
+
+\* Length classes of an attacker-chosen nonce count L against the required P (P even, >= 8)
+LenClasses == {"zero", "one", "two", "four", "lt2", "lt1", "eq", "gt1", "gt2"}
+LenClass(lc, P) == CASE lc = "zero" -> 0
+                     [] lc = "one" -> 1
+                     [] lc = "two" -> 2
+                     [] lc = "four" -> 4
+                     [] lc = "lt2" -> P - 2
+                     [] lc = "lt1" -> P - 1
+                     [] lc = "eq" -> P
+                     [] lc = "gt1" -> P + 1
+                     [] lc = "gt2" -> P + 2
+
+\* The verdict of verify_size: GraphBy(var) is the header-seeded graph under definition var,
+\* P the required length of the chain type.  No graph definition for the header: refused.
+VerifySizeVerdict(chain, version, eb, P, GraphBy(_), seq) ==
+    LET sv == SelectVariant(chain, version, eb) IN
+    IF sv = "none" THEN "reject"
+    ELSE IF Accept([GraphBy(sv) EXCEPT !.K = P], seq) THEN "accept" ELSE "reject"
 
 -----------------------------------------------------------------------------
 (* Path-extension machine: all simple K-cycles of every graph in Graphs.   *)
